@@ -704,8 +704,10 @@ def tie(ctx):
     dis += lg['dis']
     pv = tie_platform(ctx, dist)
     dis += pv['dis']
+    gd = tie_guard(ctx, dist)
+    dis += gd['dis']
     dis += lk['dis']
-    n_eval = len(pcs) + len(fcs) + ext['n'] + lk['n'] + lg['n'] + pv['n']
+    n_eval = len(pcs) + len(fcs) + ext['n'] + lk['n'] + lg['n'] + pv['n'] + gd['n']
     return {
         'evaluations': n_eval,
         'distinct_nontrivial': nontriv,
@@ -1060,6 +1062,57 @@ def tie_log(ctx, dist):
                     'impl': None if first is None else exp[bi][max(0, first - 6):first + 6]})
         if len(dis) > 3:
             break
+    return {'dis': dis, 'n': len(terms)}
+
+
+def tie_guard(ctx, dist):
+    """the restart guard of the real Log object over its life: refresh_toc / reset replies / disconnected in any
+    order; observed: is a Toc present, and for every TocFetcher the Log creates, whether a refresh_toc of the current
+    attempt was waiting for its reset reply (harness-side ghost) — against `grun GFixed`"""
+    import cflib.crazyflie.log as lg
+    rng = ctx.rng
+    terms, exp, cases = [], [], []
+    Orig = lg.TocFetcher
+    for _ in range(ctx.scale(60, 500)):
+        evs = [rng.choice(['GRefresh', 'GReset', 'GReset', 'GDisconnect']) for _ in range(rng.randint(1, 9))]
+        if rng.random() < 0.7:
+            evs.insert(0, 'GRefresh')
+        trace = []
+        cf = fk.FakeCF(rng.choice([3, 7]), trace)
+        ghost = {'pending': False}
+        starts = []
+
+        class Rec(Orig):
+            def __init__(self, *a, **k):
+                Orig.__init__(self, *a, **k)
+                starts.append(1 if ghost['pending'] else 0)
+                ghost['pending'] = False
+        lg.TocFetcher = Rec
+        try:
+            log = lg.Log(cf)
+            cache = StubCache(trace, {})
+            for e in evs:
+                if e == 'GRefresh':
+                    ghost['pending'] = True
+                    log.refresh_toc(lambda: None, cache)
+                elif e == 'GReset':
+                    cf.deliver(LOG_PORT, 1, bytes([5, 0, 0]))
+                else:
+                    cf.disconnected.call('uri')
+                    ghost['pending'] = False
+            obs = [0 if log.toc is None else 1, 1 if ghost['pending'] else 0] + starts
+        finally:
+            lg.TocFetcher = Orig
+        terms.append('enc_gst (grun GFixed [%s])' % '; '.join(evs))
+        exp.append(obs)
+        cases.append(evs)
+    dis = []
+    for bi, mv in compare_blocks(HEADER_L, terms, exp, tag='c03g', shard=max(2, len(terms) // 6 + 1)):
+        dis.append({'what': 'Log restart guard over sessions: model and implementation differ', 'events': cases[bi],
+                    'model [toc, pending, legit flags...]': mv, 'impl': exp[bi]})
+        if len(dis) > 2:
+            break
+    dist['guard_histories'] = len(terms)
     return {'dis': dis, 'n': len(terms)}
 
 
@@ -1551,6 +1604,134 @@ def gen_versions_cases(ctx, deep):
     return out
 
 
+# ------------------------------------------------------------------ whole connection setup over two sessions, stale settings replies
+
+def oracle_setup_case(case):
+    """ONE Crazyflie-like object (real PlatformService, Log, Param on one cf) through two connection setups as
+    Crazyflie wires them: version handshake -> Log.refresh_toc -> (memories) -> Param.refresh_toc -> `connected`.
+    The device answers every request it receives, in order, both generations' TOC commands (reply_fw).  Replies of the
+    log SETTINGS channel left over from the first session (reset reply, block replies) are injected before the answer
+    to the k-th request of the second setup, for the k of the case (0 = before the source answer, 1 = before the
+    version answer, ...).  Property text at `connected` of each session: both tables exactly the device's."""
+    import cflib.crazyflie.log as lg
+    import cflib.crazyflie.param as pm
+    trace = []
+    cf = mk_cf_with_platform(trace)
+    log = lg.Log(cf)
+    par = pm.Param.__new__(pm.Param)
+    par.cf = cf
+    par.toc = pm.Toc()
+    cache = StubCache(trace, {})
+    nfetch = [0]
+    Orig = lg.TocFetcher
+
+    class Rec(Orig):
+        def __init__(self, *a, **k):
+            Orig.__init__(self, *a, **k)
+            nfetch[0] += 1
+    lg.TocFetcher = Rec
+
+    def fail(klass, detail):
+        return {'class': klass, 'case': case, 'detail': detail, 'observed': detail,
+                'expected': 'at connected of every session both tables are exactly the device tables'}
+    try:
+        for sn, sess in enumerate(case['sessions']):
+            ver = sess['ver']
+            L = [ditem_unjson(d) for d in sess['log']]
+            P = [ditem_unjson(d) for d in sess['param']]
+            ldev = fk.PyDev(raw_items('log', L), sess['crc_log'])
+            pdev = fk.PyDev(raw_items('param', P), sess['crc_param'])
+            mark = len(trace)
+            connected = []
+            par.toc = pm.Toc()                                  # Param._connection_requested
+
+            def on_connected():
+                connected.append(check_table('log', L, log.toc) if log.toc is not None else 'log table is None')
+
+            def after_log():
+                par._useV2 = cf.platform.get_protocol_version() >= 4
+                par.refresh_toc(on_connected, cache)             # Memory.refresh with no memories completes at once
+
+            def after_platform():
+                log.refresh_toc(after_log, cache)
+            cf.platform.fetch_platform_informations(after_platform)
+            answered = 0
+            limit = sess.get('cut')
+            for step in range(len(L) + len(P) + 40):
+                for st in [x for x in sess.get('stale', []) if x['k'] == answered and not x.get('done')]:
+                    st['done'] = True
+                    cf.deliver(5, 1, bytes(st['data']))
+                if limit is not None and answered >= limit:
+                    break
+                sends = [t for t in trace[mark:] if t[0] == 'send']
+                if answered >= len(sends):
+                    break
+                t = sends[answered]
+                answered += 1
+                port, chan, data = t[1], t[2], t[3]
+                r = None
+                if (port, chan) == (15, 1):
+                    r = (MAGIC + b'\0') if ver >= 0 else b'\0'
+                elif (port, chan) == (13, 1):
+                    r = bytes([0, ver]) if ver >= 0 else None
+                elif (port, chan) == (5, 1) and data[:1] == b'\x05':
+                    r = bytes([5, 0, 0])
+                elif (port, chan) == (5, 0):
+                    r = ldev.reply_fw(ver, data)
+                elif (port, chan) == (2, 0):
+                    r = pdev.reply_fw(ver, data)
+                if r is not None:
+                    cf.deliver(port, chan, r)
+            for st in sess.get('stale', []):
+                st.pop('done', None)
+            exc = [t for t in trace[mark:] if t[0] == 'raised']
+            if limit is not None:
+                cf.disconnected.call('uri')
+                continue
+            if exc:
+                return fail('setup_raises', 'session %d: callback raised %r' % (sn, exc[0][1:]))
+            if not connected:
+                return fail('connected_never_signalled', 'session %d: connected is never signalled' % sn)
+            for ci, snap in enumerate(connected):
+                if snap:
+                    return fail('log_table_incomplete_at_connected', 'session %d: at connected (signal %d of %d): %s' % (
+                        sn, ci + 1, len(connected), snap))
+            # connected signalled more than once with complete tables each time is not a matter of this property (C02)
+            bad = check_table('log', L, log.toc) or check_table('param', P, par.toc)
+            if bad:
+                return fail('table_differs_after_setup', 'session %d: %s' % (sn, bad))
+            cf.disconnected.call('uri')
+        return None
+    finally:
+        lg.TocFetcher = Orig
+
+
+def gen_setup_cases(ctx, deep):
+    rng = ctx.rng
+    out = []
+    stale_kinds = [[5, 0, 0], [5, 0, 0], [5, 0, 0], [0, 1, 0], [6, 1, 0], [3, 1, 0], [4, 1, 0], [2, 1, 0]]
+    # how far the first session got: complete; cut after k answers (0: nothing answered, 1: source, 2: version,
+    # 3: reset reply = download started, 4: INFO, ...)
+    for k in range(ctx.scale(40, 300) * (2 if deep else 1)):
+        ver1, ver2 = rng.choice([(7, 7), (3, 3), (3, 7), (7, 3), (10, 10)])
+        def tabs(ver):
+            L = gen_items(rng, 'log', rng.choice([2, 3, 5, 12]), ver >= 4)
+            P = gen_items(rng, 'param', rng.choice([1, 2, 3]), ver >= 4)
+            for it in P:
+                it['ext'] = False
+            return [ditem_json(i) for i in L], [ditem_json(i) for i in P]
+        L1, P1 = tabs(ver1)
+        L2, P2 = tabs(ver2)
+        cut = [None, None, 2, 3, 4, 6, 2][k % 7]               # 2: abandoned between refresh_toc and its reset reply
+        nstale = rng.choice([1, 1, 2, 3])
+        stale = [{'k': rng.choice([0, 0, 1, 1, 2, 3, 4, rng.randrange(0, len(L2) + len(P2) + 6)]), 'data': rng.choice(stale_kinds)}
+                 for _ in range(nstale)]
+        out.append({'kind': 'setup', 'sessions': [
+            {'ver': ver1, 'log': L1, 'param': P1, 'crc_log': rng.getrandbits(32), 'crc_param': rng.getrandbits(32), 'cut': cut, 'stale': []},
+            {'ver': ver2, 'log': L2, 'param': P2, 'crc_log': rng.getrandbits(32), 'crc_param': rng.getrandbits(32), 'stale': stale}]})
+    return out
+
+
 # ------------------------------------------------------------------ lookups
 
 def impl_lookups(toc_lists_, queries):
@@ -1876,6 +2057,8 @@ def _run_oracle_case(case):
             return oracle_sessions_case(case)
         if case.get('kind') == 'versions':
             return oracle_versions_case(case)
+        if case.get('kind') == 'setup':
+            return oracle_setup_case(case)
         return oracle_fetch_case(case)
     except Exception as e:  # noqa
         import traceback
@@ -1895,7 +2078,7 @@ def corpus_cases():
 def oracle(ctx, deep=False):
     fails = []
     n = 0
-    for case in corpus_cases() + _mk_oracle_cases(ctx, deep) + gen_log_oracle_cases(ctx, deep) + gen_sessions_cases(ctx, deep) + gen_versions_cases(ctx, deep):
+    for case in corpus_cases() + _mk_oracle_cases(ctx, deep) + gen_log_oracle_cases(ctx, deep) + gen_sessions_cases(ctx, deep) + gen_versions_cases(ctx, deep) + gen_setup_cases(ctx, deep):
         n += 1
         f = _run_oracle_case(case)
         if f:
